@@ -1106,11 +1106,14 @@ def _grp(nodes, k, start=0, stride=3):
     """k nodes of `nodes` in a deterministic unsorted order."""
     nodes = list(nodes)
     m = len(nodes)
+    assert k <= m
     out, i = [], start
     while len(out) < k:
         v = nodes[i % m]
-        if v not in out:
-            out.append(v)
+        if v in out:
+            i += 1          # occupied: next free node (always terminates)
+            continue
+        out.append(v)
         i += stride if (len(out) % 4) else stride + 1
     return out
 
@@ -1142,6 +1145,22 @@ def _scale_cases(thorough):
          _grp(range(15, 30), 12, 2))
     both(30, "ring-chords", 1, _grp(range(0, 30, 3), 7, 1),
          _grp(range(1, 30, 3), 8, 0) + [29, 27, 26])
+    # dense graphs: one node closes >= 128 triangles with the other group
+    # (K18 1|17: 136), >= 128 cross triples in total with triangles != triples
+    both(18, "complete", 1, [7], _grp([v for v in range(18) if v != 7],
+                                      17, 2, 5))
+    both(18, "complete", 2, _grp(range(0, 18, 3), 6, 1, 1),
+         _grp([v for v in range(18) if v % 3], 12, 3, 5))
+    both(20, "dense", 1, _grp(range(0, 8), 8, 3), _grp(range(8, 20), 12, 1,
+                                                       5))
+    both(20, "dense", 2, _grp(range(1, 20, 4), 5, 2, 1),
+         _grp(range(0, 20, 2), 9, 1))
+    both(12, "cocktail", 1, _grp(range(0, 12, 2), 6, 1, 1),
+         _grp(range(1, 12, 2), 6, 2, 1))
+    if thorough:
+        both(40, "dense", 1, _grp(range(0, 20), 20, 1), _grp(range(20, 40),
+                                                             20, 7))
+        both(33, "complete", 2, [32], _grp(range(0, 32), 32, 5))
     # N >= 182: groups containing the highest-numbered nodes
     for n in (182, 200) + ((260, 300) if thorough else ()):
         both(n, "ring-chords", 1,
